@@ -38,8 +38,11 @@ def run(ctx):
                 if dv["field"] in ("best_move", "score", "engine-panic", "bestmove-line", "writes", "nodes"):
                     nb += 1
                     if nb <= 3:
-                        rp = C.write_replay(prop, {"kind": "cache-on search on a mate position differs from the model", "divergence": dv, "case": c})
-                        violations.append({"replay": rp})
+                        # a correspondence (the theorems are about the model); whether the property fails is for the mate oracle below
+                        rp = C.write_replay(prop, {"kind": "cache-on search on a mate position differs from the model", "divergence": dv, "case": c,
+                                                   "broken": "correspondence engine = model on `%s` for cache-on searches of mate positions; the three mate "
+                                                             "clauses are judged on the engine by the mate oracle legs of this check" % dv["field"]})
+                        violations.append({"replay": rp, "no_input": dv["field"] != "engine-panic"})
     # mate oracle evaluated on the model
     items = ["mate_facts %s []" % B.coq_str(f) for f in fens]
     vals, lg = C.coq_eval_items("c12o", S.HEADER, items, lambda l: l, nshards=C.NPROC, timeout=1500)
@@ -102,7 +105,7 @@ def run(ctx):
     import json
     import positions as P
     from concurrent.futures import ThreadPoolExecutor
-    nh = 30000 if ctx["tier"] == "quick" else 1000000
+    nh = 12000 if ctx["tier"] == "quick" else 400000
     hfens = P.mate_hunt_positions(ctx["seed"], nh)
     small = [f for f in hfens if sum(ch.isalpha() for ch in f.split()[0]) <= 4]
     sample = fens + small[:25 if ctx["tier"] == "quick" else 300]
@@ -136,7 +139,8 @@ def run(ctx):
     with ThreadPoolExecutor(max_workers=C.NPROC) as ex:
         parts = list(ex.map(hunt, chunks))
     hstats = {"positions": 0, "mate_in_one": 0, "mate_in_two": 0, "avoidable_threat": 0, "panics": 0,
-              "mate_in_two_kept_as_a_longer_mate": 0, "oracle_validated_against_coq": nval, "sequences": hseqs}
+              "mate_in_two_kept_as_a_longer_mate": 0, "mate_scores_confirmed_by_the_solver": 0, "mate_scores_undecided": 0,
+              "oracle_validated_against_coq": nval, "sequences": hseqs}
     if any(x is None for x in parts):
         rp = C.write_replay(prop, {"broken": "mate hunt on the engine did not complete"})
         violations.append({"replay": rp, "no_input": True})
@@ -150,7 +154,15 @@ def run(ctx):
             if r_.get("facts"):
                 for k_, nm in enumerate(("mate_in_one", "mate_in_two", "avoidable_threat")):
                     hstats[nm] += r_["facts"][k_]
+            hstats["mate_scores_confirmed_by_the_solver"] += r_.get("mate_scores", 0)
             for v in r_.get("violations", []):
+                if v["clause"] == 44:
+                    # the solver's work budget ran out before the claimed distance (+3) was searched: not judged
+                    hstats["mate_scores_undecided"] += 1
+                    hstats["mate_scores_confirmed_by_the_solver"] -= 1
+                    continue
+                if v["clause"] in (4, 5):
+                    hstats["mate_scores_confirmed_by_the_solver"] -= 1
                 if v["clause"] in (20, 30, 40):
                     # the mate in two was not kept as a mate in two but as a forced mate within 3 / 4 / 5 moves: "keeps a forced mate" holds
                     hstats["mate_in_two_kept_as_a_longer_mate"] += 1
@@ -158,7 +170,11 @@ def run(ctx):
                 nv += 1
                 if nv <= 3:
                     what = {1: "a mate in one exists but the chosen move does not mate", 2: "a mate in two exists but after the chosen move no forced mate within five moves remains",
-                            3: "the chosen move allows a mate in one although some legal move avoids it"}[v["clause"]]
+                            3: "the chosen move allows a mate in one although some legal move avoids it",
+                            4: "the search left a mate score (>= 32000) but the chosen move does not force mate within the claimed distance + 3 moves "
+                               "(C12_mate_scores_sound: a mate score is never a lie; exhaustive memoised solver)",
+                            5: "the search left a mated score (<= -32000) but the position is not lost within the claimed distance + 3 moves "
+                               "(C12_mate_scores_sound; exhaustive memoised solver)"}[v["clause"]]
                     rp = C.write_replay(prop, {"kind": "mate-level property on the engine (cache on, hunt)", "fen": f, "searches_sharing_the_cache": v["seq"],
                                                "search_index": v["k"], "chosen": v["move"], "problem": what,
                                                "replay_cmd": "printf '%s | %s\\n' | %s verif matehunt" % (f, v["seq"], C.ENGINE)})
@@ -170,8 +186,9 @@ def run(ctx):
     cov["rule"] = ("15 sparse positions with a mate in one, a mate in two or an avoidable mate-in-one threat x sequences of searches sharing "
                    "the cache ((3), (4,3), (2,4,3), (3,3), ...): engine vs model (move, score), and the three clauses judged on the engine's "
                    "choices by a mate oracle evaluated in Coq on the model (mating moves; forced mate within 2-3 moves; replies that mate); "
-                   "hunt: 30 000 (quick) / 1 000 000 (thorough) random sparse positions on the engine alone with the cache ON, each searched in 8-10 sequences "
-                   "sharing the cache, every chosen move judged by a mate oracle over the engine's board API which is compared with the Coq oracle each run")
+                   "hunt: 12 000 (quick) / 400 000 (thorough) random sparse positions on the engine alone with the cache ON, each searched in 8-10 sequences "
+                   "sharing the cache, every chosen move judged by a mate oracle over the engine's board API which is compared with the Coq oracle each run; "
+                   "every mate SCORE (|score| >= 32000) of every one of these searches confirmed by an exhaustive memoised mate solver (the tie of C12_mate_scores_sound)")
     cov["samples"].append({"fen": fens[0], "sequences": seqs})
     return SP.finish(prop, gate, violations, cov)
 
